@@ -35,7 +35,7 @@ SLOTS = [
     {"ann": "Union[Dict[str, int], Dict[str, str]]", "vals": ["{'a': 1}", "{'a': 's'}"]},
 ]
 
-HEADER = '''from collections import defaultdict
+HEADER = '''from collections import defaultdict, deque, OrderedDict
 from typing import Any, Callable, DefaultDict, Dict, Iterator, Generator, List, NewType, Optional, Set, Tuple, Type, Union
 from vf.fixtures.hier import A, B, C, D, M, Outer, MyList, MyDict, NT, func, lam, make_gen, MySet, MyTuple, Handler, partial, zero, raw_cmeth, lazy_prop, GetOnly, partialmethod, Movie
 from vf.fixtures.hier import X1, X2, X3, X4, X5, X6, R1, R2, E1, E2, E3, E4, E5, E6, AH1, AH2, AH3, AH4, AH5, AH6
